@@ -77,7 +77,39 @@ pub(crate) fn c02_oracle(c: &BuildCase, st: &mut Stats) -> Verdict {
     }
     st.label_if(blocks.len() == 31, "31 blocks");
     st.label_if(blocks.iter().any(|b| b.cumulative_lost >> 16 != 0 && b.fraction_lost != 0), "cumulative_lost top byte != 0 next to fraction_lost != 0");
-    roundtrip("C02", c)
+    roundtrip("C02", c)?;
+    // "the same report blocks in the same order" however the parsed view's iterator is driven
+    // (count, last, nth, skip, step_by, a partly consumed iterator), not only through a plain loop
+    if !blocks.is_empty() {
+        use rtcp_types::prelude::*;
+        type F = (u32, u8, u32, u32, u32, u32, u32);
+        let want: Vec<F> = blocks.iter().map(|b| (b.ssrc, b.fraction_lost, b.cumulative_lost, b.ext_seq, b.jitter, b.lsr, b.dlsr)).collect();
+        let proj = |rb: rtcp_types::ReportBlock| -> F {
+            (
+                rb.ssrc(),
+                rb.fraction_lost(),
+                rb.cumulative_lost(),
+                rb.extended_sequence_number(),
+                rb.interarrival_jitter(),
+                rb.last_sender_report_timestamp(),
+                rb.delay_since_last_sender_report_timestamp(),
+            )
+        };
+        let bytes = build_valid(&c.spec, c.how, "C02")?;
+        let v = no_panic("report_blocks iterator protocol", || match &c.spec {
+            PacketSpec::Sr(_) => match rtcp_types::SenderReport::parse(&bytes) {
+                Ok(p) => iter_protocol("SenderReport::report_blocks", "C02", || p.report_blocks(), proj, &want, c.salt, false),
+                Err(_) => Ok(()),
+            },
+            _ => match rtcp_types::ReceiverReport::parse(&bytes) {
+                Ok(p) => iter_protocol("ReceiverReport::report_blocks", "C02", || p.report_blocks(), proj, &want, c.salt, false),
+                Err(_) => Ok(()),
+            },
+        })
+        .map_err(|f| Failure::new(format!("C02:{}", f.signature), f.detail))?;
+        v?;
+    }
+    Ok(())
 }
 
 fn field_pattern(k: u64) -> u32 {
